@@ -282,6 +282,34 @@ pub fn run() {
                     })));
                     "ok".into()
                 }
+                ["floodactor", kind, n, after_us] => {
+                    // when the key-keeper state actor next handles a message of the given kind: `n` readers (what request handlers
+                    // are) send it a message each while it is held for a moment, so that its mailbox is full behind it; from then on
+                    // it is slow by `after_us` per message (the readers keep it full for a while)
+                    let kind_w = kind.to_string();
+                    let n: usize = n.parse().unwrap();
+                    let after_us: u64 = after_us.parse().unwrap();
+                    let kk2 = kk.clone();
+                    let handle = tokio::runtime::Handle::current();
+                    let mut fired = false;
+                    crate::shared_state::verif_actor::set_hook(Some(Box::new(move |actor, kind| {
+                        if actor == "key_keeper" {
+                            if !fired && kind == kind_w {
+                                fired = true;
+                                for _ in 0..n {
+                                    let kk3 = kk2.clone();
+                                    handle.spawn(async move {
+                                        let _ = kk3.get_current_key_guid().await;
+                                    });
+                                }
+                                std::thread::sleep(std::time::Duration::from_millis(400));
+                            } else if fired {
+                                std::thread::sleep(std::time::Duration::from_micros(after_us));
+                            }
+                        }
+                    })));
+                    "ok".into()
+                }
                 ["sumburst", n] => {
                     // n tasks report one identical denial each to the real status actor, all at once (what n request handlers do)
                     let n: usize = n.parse().unwrap();
@@ -355,6 +383,37 @@ pub fn run() {
                     let us: u64 = us.parse().unwrap();
                     crate::shared_state::verif_actor::set_hook(Some(Box::new(move |_actor, _kind| {
                         std::thread::sleep(std::time::Duration::from_micros(us));
+                    })));
+                    "ok".into()
+                }
+                ["stallactor", which, kind, stall_ms, after_us] => {
+                    // the named actor stalls once, for `stall_ms`, when it handles its next message of the given kind (its mailbox
+                    // fills up behind it under load), and is slow by `after_us` per message from then on
+                    let which = which.to_string();
+                    let kind_w = kind.to_string();
+                    let stall_ms: u64 = stall_ms.parse().unwrap();
+                    let after_us: u64 = after_us.parse().unwrap();
+                    let mut stalled = false;
+                    crate::shared_state::verif_actor::set_hook(Some(Box::new(move |actor, kind| {
+                        if actor == which {
+                            if !stalled && kind == kind_w {
+                                stalled = true;
+                                std::thread::sleep(std::time::Duration::from_millis(stall_ms));
+                            } else if stalled {
+                                std::thread::sleep(std::time::Duration::from_micros(after_us));
+                            }
+                        }
+                    })));
+                    "ok".into()
+                }
+                ["slowactor", which, us] => {
+                    // one actor is slow (each message it handles takes `us` microseconds longer): its mailbox fills up under load
+                    let us: u64 = us.parse().unwrap();
+                    let which = which.to_string();
+                    crate::shared_state::verif_actor::set_hook(Some(Box::new(move |actor, _kind| {
+                        if actor == which {
+                            std::thread::sleep(std::time::Duration::from_micros(us));
+                        }
                     })));
                     "ok".into()
                 }
